@@ -10,6 +10,7 @@ func init() {
 		Units: []Unit{mainUnit([]string{"main/c18.go", "main/c18native.go", "main/c07m.go"},
 			Harness{Fn: "ZZC18Write", Quick: p("K", 8), Thorough: p("K", 10), Expect: []string{"clean-run", "unparsable", "fault", "killed", "witness:end"}},
 			Harness{Fn: "ZZC18Check", Expect: []string{"witness:end"}},
+			Harness{Fn: "ZZC18Txtar", Quick: p("M", 2), Thorough: p("M", 3), Expect: []string{"txtar-unparsable", "txtar-check", "txtar-write", "witness:end"}},
 			Harness{Fn: "ZZC07CheckFiles", Quick: p("FILES", 2), Thorough: p("FILES", 3), Expect: []string{"files-ok", "files-unformatted", "witness:end"}},
 			Harness{Fn: "ZZC07Stdin", Expect: []string{"stdin-unparsable", "stdin-formatted", "stdin-checked", "witness:end"}},
 		)},
